@@ -146,8 +146,13 @@ class Problem:
                 self.noise = float(10 ** rng.uniform(-4, -2))
                 self.runit = 1.0
 
+        # documented option: the interpolation system solved WITHOUT its diagonal preconditioner (seeded C11_12 kept the row
+        # scaling of the preconditioned system although the directions had not been scaled)
+        self.no_precondition = bool(rng.random() < 0.15)
+
     def describe(self):
         return {"n": self.n, "m": self.m, "kind": self.kind, "bounds": self.bounds is not None, "scaling": self.scaling,
+                "precondition": not self.no_precondition,
                 "npt": self.npt, "maxfun": self.maxfun, "rhoend": self.rhoend, "restart": self.restart, "nsamples": self.nsamp,
                 "noise": self.noise, "use_old_rk": self.use_old_rk, "increase_npt": self.increase_npt, "residual_unit": self.runit,
                 "move_xk": self.move_xk, "extra_steps": self.extra_steps, "momentum": self.momentum}
@@ -193,6 +198,8 @@ def run_problem(dfols, prob, capture=None):
         up["regression.num_extra_steps"] = prob.extra_steps
         up["regression.momentum_extra_steps"] = prob.momentum
         np.random.seed(prob.noise_seed % (2 ** 32))     # momentum directions come from NumPy's global generator
+    if getattr(prob, "no_precondition", False):
+        up["interpolation.precondition"] = False
     if prob.runit != 1.0:
         up["model.abs_tol"] = 1e-20 * prob.runit ** 2      # keep the 'sufficiently small' exit in proportion to the units
     kw = dict(npt=prob.npt, maxfun=prob.maxfun, rhoend=prob.rhoend, user_params=up, do_logging=False,
